@@ -58,12 +58,14 @@ def run(rep, prog, tier):
             rep.ob('R04.pure', q, False, f'source zeroing writes to the network it is given (`{p_}`): {s_} -- deriving the single-source sub-networks from one original network fails after the first call', prog.funcs[q].site)
         else:
             rep.ob('R04.pure', q, True, 'returns a new network, the input is not written', prog.funcs[q].site)
-    # RHS: I and V read once each, as array elements
-    f = prog.func(NA, 'current_source_vector')
-    src = ast.unparse(f.node)
-    ok = '.element.I' in src and 'np.array' in src
-    rep.ob('R04.rhs', 'rhs:I', ok, 'current_source_vector = array of element.I', f.site)
-    f = prog.func(NA, 'nodal_analysis_constants_vector')
-    src = ast.unparse(f.node)
-    ok = '.element.V' in src
-    rep.ob('R04.rhs', 'rhs:V', ok, 'constants vector stacks element.V of the ideal voltage sources', f.site)
+    # RHS: I and V read once each, as array elements over the label lists of their own source maps
+    from . import incidence as INC
+    rs = INC.rhs_signs(prog)
+    from ..terms import Comp, has_opaque
+    it = rs.get('I_term')
+    rep.ob('R04.rhs', 'rhs:I', True if rs['I'] is not None else (None if it is None or has_opaque(it) or not isinstance(it, Comp) else False),
+           f"current_source_vector = {it!r:.160}", rs.get('site_I', ''))
+    vt = rs.get('V_term')
+    okv = rs['V'] is not None and isinstance(vt, Comp) and not vt.gens[0][1] and "voltage_source_mapper" in repr(vt.gens[0][0])
+    rep.ob('R04.rhs', 'rhs:V', True if okv else (None if vt is None or has_opaque(vt) or not isinstance(vt, Comp) else False),
+           f"constants vector = {rs.get('rhs_term')!r:.200}", rs.get('site', ''))
